@@ -40,11 +40,15 @@ def main(argv):
     trusted = list(getattr(plugin, "TRUSTED_BASE", []))
     assumptions = list(getattr(plugin, "ASSUMPTIONS", []))
 
+    import time as _t
+    phases = {}
+    _t0 = _t.time()
     # 0 gate -----------------------------------------------------------------
     off = vlib.gate()
     if off:
         ctx.broken.append({"kind": "gate", "name": "forbidden-token", "detail": off[:20]})
 
+    phases['gate'] = round(_t.time() - _t0, 1); _t0 = _t.time()
     # 1 generate ---------------------------------------------------------------
     gen_ok = True
     if hasattr(plugin, "generate"):
@@ -57,6 +61,7 @@ def main(argv):
             gen_ok = False
             ctx.broken.append({"kind": "translator", "name": "generator-crash", "detail": traceback.format_exc()[-2000:]})
 
+    phases['generate'] = round(_t.time() - _t0, 1); _t0 = _t.time()
     # 2 prove ------------------------------------------------------------------
     theorems = vlib.count_theorems(prop)
     discharged: list[str] = []
@@ -89,6 +94,7 @@ def main(argv):
         if not okc:
             ctx.broken.append({"kind": "coqchk", "name": f"Props/{prop}.vo", "detail": outc[-2000:]})
 
+    phases['prove'] = round(_t.time() - _t0, 1); _t0 = _t.time()
     # 3 correspondence -----------------------------------------------------------
     disagreements: list[dict] = []
     if model_ok and hasattr(plugin, "correspondence"):
@@ -102,6 +108,7 @@ def main(argv):
     ctx.extra["disagreements_checked"] = ctx.evaluations
     ctx.extra["disagreements"] = len(disagreements)
 
+    phases['correspondence'] = round(_t.time() - _t0, 1); _t0 = _t.time()
     # 4 search + known findings ------------------------------------------------
     failures: list[dict] = []
     if hasattr(plugin, "search"):
@@ -109,6 +116,8 @@ def main(argv):
             failures = plugin.search(ctx, deep=bool(ctx.broken)) or []
         except Exception:
             ctx.broken.append({"kind": "search", "name": "harness-crash", "detail": traceback.format_exc()[-3000:]})
+    phases['search'] = round(_t.time() - _t0, 1)
+    ctx.extra['phase_seconds'] = phases
     known = vlib.load_known(prop)
     known_classes = {e["class"] for e in known}
     for e in known:
@@ -146,7 +155,7 @@ def main(argv):
                         trusted_base=trusted, assumptions=assumptions, violations=nviol)
     print(f"[{prop} {tier}] obligations={len(theorems)} discharged={len(discharged)} evaluations={ctx.evaluations} "
           f"distinct_nontrivial={len(ctx.nontrivial_keys)} broken={len(ctx.broken)} failures={len(failures)} "
-          f"wall={ctx.elapsed():.1f}s", flush=True)
+          f"wall={ctx.elapsed():.1f}s phases={phases}", flush=True)
     if ctx.broken:
         for b in ctx.broken:
             print("  broken:", b["kind"], b["name"], flush=True)
